@@ -16,7 +16,7 @@ TRUSTED_SCHEMAS = [
     "parity of integer products ((a*b) % 2 == 0 <=> a % 2 == 0 or b % 2 == 0) and a*b >= a, b for a, b >= 1",
     "cardinality facts of finite name sets (card >= 0, card = 0 <=> empty, card = 1 => singleton)",
     "the identification of Python's float operations (**, math.sqrt/cbrt/log/sin/cos) with the real functions",
-    "the meaning of the big-operator symbols of G-mode (bigsum / bigprod / bighash are Finset.range sums / products / any function of the element sequence); their unfolding, extensionality, zero-factor, sum-of-zeros, cons and entry-removed schemas are proved (ax_bigsum_succ, ax_bigsum_ext, ax_bigprod_has_zero, ax_bigsum_zero_or_witness, ax_bigprod_cons, ax_bigprod_without, d_bigprod_without, ax_bigsum_filter, ax_bigprod_filter, ax_filter_list_sum, ax_filter_list_prod, ax_bigsum_partition, ax_bigprod_partition, ax_partition_lengths, ax_bigsum_neg, ax_bigprod_neg, ax_bigprod_split_entry, ax_bigsum_split_at, ax_bigprod_split_at); that a filtered list of symbolic length is the sub-list (List.range n).filter P in order is part of that meaning",
+    "the meaning of the big-operator symbols of G-mode (bigsum / bigprod / bighash are Finset.range sums / products / any function of the element sequence); their unfolding, extensionality, zero-factor, sum-of-zeros, cons and entry-removed schemas are proved (ax_bigsum_succ, ax_bigsum_ext, ax_bigprod_has_zero, ax_bigsum_zero_or_witness, ax_bigprod_cons, ax_bigprod_without, d_bigprod_without, ax_bigsum_filter, ax_bigprod_filter, ax_filter_list_sum, ax_filter_list_prod, ax_bigsum_partition, ax_bigprod_partition, ax_partition_lengths, ax_bigsum_neg, ax_bigprod_neg, ax_bigprod_split_entry, ax_bigsum_split_at, ax_bigprod_split_at, ax_bigprod_inv, ax_bigprod_inv_mul); that a filtered list of symbolic length is the sub-list (List.range n).filter P in order is part of that meaning",
     "dV row of the odd root at negative arguments (reduces to d_root_pos on -f by ax_root_neg)",
 ]
 
